@@ -209,7 +209,8 @@ def h_init_params(H):
 
 # ----------------------------------------------------------------------------- reconstruction
 @harness(PROPERTY, "reconstruct_window", functions=["neuropixel:NP2Reconstructor._reconstruct"],
-         replay=lambda vals, oid: (lambda b: {"failed": bool(b), "cases": [repr(x)[:200] for x in b[:3]]})(native_end_to_end(np.random.default_rng(3), *GAINS[2], 61234, 30000, None)),
+         replay=lambda vals, oid: (lambda b: {"failed": bool(b), "cases": [repr(x)[:200] for x in b[:3]]})(native_end_to_end(np.random.default_rng(3), *GAINS[2], 61234, 30000, None)
+                                                                                                           + native_end_to_end(np.random.default_rng(4), *GAINS[2], 60000, 30000, None)),
          clause="reassembling the per-shank files reproduces the original binary (column scatter is the inverse of the split)")
 def h_recon(H):
     S = H.session("recon.window")
@@ -408,7 +409,7 @@ def _mk_np24(d, rng_v, maxint, ns, values="random", rng=None, shank_perm=None, f
                 line = hdr + "".join(f"({shank_perm[i]}:{c}:{r}:{fl})" for i, (s, c, r, fl) in enumerate(ent)) + "\n"
             g.write(line)
         # fields other tools add: integer lists with entries of seven and more digits (CatGT time values, dates in notes)
-        g.write("catTVals=0,110884048\nuserNotes=20210802,1234567\n")
+        g.write("catTVals=0,110884048\nuserNotes=20210802,1234567\nuserDepths=0.35,1.25,2.5\nrigVersion=2.0.137,1.4\n")       # ... and lists of decimals / dotted versions (kept verbatim)
     return ap, D
 
 
@@ -481,7 +482,7 @@ def native_end_to_end(rng, rng_v, maxint, ns, window, nshank_assign, stale=False
 
 
 @bounded(PROPERTY, "native_end_to_end", bound="real NP2.4 files from the shipped 4-shank meta: all 65536 int16 values x the 9 catalogued range/maxint pairs (quick: 3 pairs) ; random content x "
-         "random assignments of the 384 channels to 1..4 shanks x windows {600, 1200, 30000} x ns not aligned x {fresh output folders, forced re-split over the uncompressed outputs of a different earlier recording} (quick: 4 cases, thorough: 40); split bytes, per-shank reader shape, reconstruction bytes, metadata field for field (incl. integer lists with 7..9 digit entries); two sets of shank folders for one probe name; one recording of 61234 samples (longer than the 60000-sample reassembly window)",
+         "random assignments of the 384 channels to 1..4 shanks x windows {600, 1200, 30000} x ns not aligned x {fresh output folders, forced re-split over the uncompressed outputs of a different earlier recording} (quick: 4 cases, thorough: 40); split bytes, per-shank reader shape, reconstruction bytes, metadata field for field (incl. integer lists with 7..9 digit entries); two sets of shank folders for one probe name; recordings of 61234 and of exactly 60000 samples (longer than / equal to the 60000-sample reassembly window)",
          clause="end-to-end bytes and metadata on real files, incl. the channel-subset string round trip")
 def b_native(B):
     gains = GAINS[:3] if B.tier == "quick" else GAINS
@@ -500,6 +501,8 @@ def b_native(B):
     # a recording longer than the reassembly window (60000 samples) and not a multiple of it: the last window of the reassembly is a short one
     bad = native_end_to_end(rng, *GAINS[2], 60000 + 1234, 30000, None)
     B.case(("e2e_longer_than_the_reassembly_window", 61234), not bad, detail=bad[:4], inputs={"kind": "e2e_long", "ns": 61234})
+    bad = native_end_to_end(rng, *GAINS[1], 60000, 30000, None)
+    B.case(("e2e_exact_multiple_of_the_reassembly_window", 60000), not bad, detail=bad[:4], inputs={"kind": "e2e_long", "ns": 60000})
     # shank maps without two adjacent channels on a shank (every saved-channel group is a single channel)
     ns = int(rng.integers(1300, 3000))
     bad = native_end_to_end(rng, *GAINS[0], ns, 1200, None, interleaved=True)
